@@ -410,6 +410,12 @@ func runC08(c *Ctx) {
 			c08PipelinedReprepareLost(c, i)
 		}
 	}
+	// C01's re-prepare storms under C08's rule (no UNPREPARED at a client)
+	for i := 0; i < c.Pick(6, 240); i++ {
+		if c.Mine(i + 1) {
+			reprepareStorm(c, i)
+		}
+	}
 	for i := 0; i < c.Pick(38, 684); i++ {
 		if c.Mine(i) {
 			c08OddStatements(c, i)
